@@ -45,8 +45,16 @@ func B2I(b bool) int {
 	return 0
 }
 
+// Replaying is set by the counterexample replay tests: ghost assertions are then
+// evaluated on the real run (they are never evaluated otherwise).
+var Replaying bool
+
 // Assert is a ghost assertion at the program point where it stands.
-func Assert(name string, f func() bool) {}
+func Assert(name string, f func() bool) {
+	if Replaying && !f() {
+		panic("verifspec: ghost assertion " + name + " is false")
+	}
+}
 
 // Assume is only accepted by the engine inside lemma functions marked trusted.
 func Assume(f func() bool) {}
